@@ -608,7 +608,11 @@ fn client_handler<State>(
 
         // Generate the response based on the handlers
         let response = match &request {
-            Ok(request) if request.method == Method::Options => {
+            // An OPTIONS request for a path without a route is answered like any other unrouted request
+            Ok(request)
+                if request.method == Method::Options
+                    && get_handler(request, &subapps, &default_subapp).is_some() =>
+            {
                 let handler = get_handler(request, &subapps, &default_subapp);
 
                 match handler {
@@ -625,6 +629,9 @@ fn client_handler<State>(
                             );
 
                         handler.cors.set_headers(&mut response.headers);
+
+                        // Set HTTP version
+                        response.version = request.version.clone();
 
                         response
                     }
